@@ -1131,8 +1131,13 @@ func (s *IPSets) writeUpdates(setName string, w io.Writer, listener UpdateListen
 
 	if needCreate || needTempIPSet {
 		if needTempIPSet {
-			// After the swap, the temp IP set has the _old_ dataplane metadata.
-			s.setNameToProgrammedMetadata.Dataplane().Set(tempSet, dpMeta)
+			// After the swap, the temp IP set has the _old_ dataplane metadata.  A failed
+			// deletion of the main set says nothing about the temp set though; without
+			// resetting the flag the temp set would be skipped by every deletion pass
+			// until the next resync.
+			tempMeta := dpMeta
+			tempMeta.DeleteFailed = false
+			s.setNameToProgrammedMetadata.Dataplane().Set(tempSet, tempMeta)
 		}
 		// The main IP set now has the correct metadata.
 		s.setNameToProgrammedMetadata.Dataplane().Set(setName, desiredMeta)
